@@ -219,6 +219,11 @@ func main() {
 		fmt.Println(strings.Join(names, "\n"))
 	case "replay":
 		replay(*file, *out)
+	case "nameschild":
+		// a fresh process running history number n of name look-ups (the glyph-name tables are loaded lazily)
+		for _, l := range namesHistory(*n) {
+			fmt.Println(l)
+		}
 	case "detchild":
 		for _, l := range detOutputs(*seed, *n) {
 			fmt.Println(l)
